@@ -1,29 +1,21 @@
 import HumphreyModel.Driver.Util
-import HumphreyModel.Model.Glob
+import HumphreyModel.Driver.C05
 
 /-!
 Line-protocol driver. Each input line: `fn <TAB> arg… <TAB> impl-output`.
 Reply per line: `=` when the model's output equals the implementation's and the spec verdict
 on the implementation's output is not "bad"; otherwise `D <TAB> model-output <TAB> spec`.
+One `dispatch` per property lives in `HumphreyModel/Driver/Cxx.lean`.
 -/
 open Humphrey Humphrey.Driver
 
-/-- Result of one case: the model's canonical output and, where a decidable spec predicate is
-available, its verdict on the *implementation's* output (`none` = not judged here). -/
-structure Verdict where
-  model : String
-  spec : Option Bool := none
+def dispatchers : List (String → List String → String → Option Verdict) :=
+  [ C05.dispatch ]
 
 def dispatch (fn : String) (args : List String) (impl : String) : Verdict :=
-  match fn, args with
-  | "glob", [p, t] =>
-    match (unhex p).bind utf8?, (unhex t).bind utf8? with
-    | some p, some t =>
-      let m := boolStr (Glob.wildcardMatch p.toList t.toList)
-      -- `wildcard_match_iff_glob` makes the model the spec: any other answer violates C05
-      { model := m, spec := some (impl == m) }
-    | _, _ => { model := "BADARGS" }
-  | _, _ => { model := "UNKNOWN-FN" }
+  match dispatchers.findSome? (fun d => d fn args impl) with
+  | some v => v
+  | none => { model := "UNKNOWN-FN" }
 
 def processLine (line : String) : String :=
   let fields := line.splitOn "\t"
